@@ -1,6 +1,6 @@
 (* C16 — the MSM label option changes signal labels only.  For EVERY table set, payload and pair of option values. *)
 From Coq Require Import NArith ZArith List String.
-From PyRtcm Require Import Base.Bytes Model.Types Model.Message Proofs.DecodeWalk Proofs.DecodeExtend Proofs.DecodeLabel.
+From PyRtcm Require Import Base.Bytes Model.Types Model.Message Proofs.DecodeWalk Proofs.DecodeExtend Proofs.DecodeLabel Proofs.DecodeLabel2.
 Import ListNotations. Open Scope Z_scope.
 
 (* same outcome class; same attribute names in the same order; equal values except at attributes written by a data field of
@@ -54,3 +54,12 @@ Theorem C16_no_csg_unaffected : forall T p l1 l2 o1 o2,
 Proof. exact label_indep_no_csg. Qed.
 Goal True. idtac "PA:C16_no_csg_unaffected". Abort.
 Print Assumptions C16_no_csg_unaffected.
+
+(* messages that are not MSM are unaffected by the option: the derived cell-signal field occurs only in MSM layouts
+   (per-run table theorem csg_only_in_msm) *)
+Theorem C16_non_msm_unaffected : forall T p l1 l2 ident o1 o2, csg_only_in_msm T = true ->
+  identity p = Ok ident -> msm_range ident = false ->
+  construct T (Some p) l1 = Ok o1 -> construct T (Some p) l2 = Ok o2 -> o_attrs o1 = o_attrs o2.
+Proof. exact label_indep_non_msm. Qed.
+Goal True. idtac "PA:C16_non_msm_unaffected". Abort.
+Print Assumptions C16_non_msm_unaffected.
